@@ -45,10 +45,11 @@ CLAIMED = {
          "chain of any length brings an instant to the coarsest grid on the chain and nothing more (chain_coarsest, induction over the chain), and a second "
          "pass is the identity (second_pass_identity) - so 'no drift' follows once each hop truncates to its grid, which C01/C02 establish per format. "
          "For SRT the hop itself is proved end to end on the writer and reader models (srt_hop: reading what the writer wrote returns one caption per written cue, "
-         "in order, with the millisecond-truncated instants and the writer's text lines, for EVERY list of cues with visible text; srt_hop_instant ties it to coarsen). "
+         "in order, with the millisecond-truncated instants and the writer's text lines, for EVERY list of cues with visible text; srt_hop_instant ties it to coarsen), "
+         "and for WebVTT (vtt_hop: captions made of text lines of any characters come back with the same lines and the millisecond-truncated instants). "
          "Execution with pycaption's own readers: all 25 ordered pairs (125 triples in thorough) plus sampled longer chains, two passes, per-language "
          "(start, end, normalised text) compared after every hop with the sequentially coarsened original (SAMI: last cue = start + 4 s)."),
-   ref="§3 C08", technique="Lean 4 proof (omega over nested grids, induction over the format chain) + end-to-end write/read theorem for SRT (refinement of the index scanner) + exhaustive pair/triple execution with the real readers and writers",
+   ref="§3 C08", technique="Lean 4 proof (omega over nested grids, induction over the format chain) + end-to-end write/read theorems for SRT and WebVTT (reader refinements, token-wise entity decoding) + exhaustive pair/triple execution with the real readers and writers",
    note=NOTE_COMMON + "for the other formats hop_obs (write then parse then read = coarsen) is composed from the C01-C04 models only by execution, not by a single theorem; languages are compared by code (order is C14's subject)."),
  "C14": dict(
    text=("Lean theorems: DFXP div language = own xml:lang, else the document's, else the configured default (dfxp_lang_fallback); the languages of a document are "
@@ -167,7 +168,7 @@ CLAIMED = {
          "with all offset metrics, SAMI end back-filling with the 4 s tail) are compared with the implementation and with an independent denotation on "
          "documents rendered by the harness's own serialisers in every spelling, plus a malformed stream for the error branches."),
    ref="§3 C01", technique="Lean 4 proof (string induction: split/span lemmas) + pinned constants/patterns + differential correspondence on generated documents",
-   note=NOTE_COMMON + "SAMI end back-filling is proved for every sync list (sami_backfill: next later sync of the language, else the 4 s tail) and the SRT reader for whole documents of any number of well-formed blocks (srt_doc_cues: one caption per block, in order, with the denoted instants; the hypotheses are met by srt_block_wf for hh:mm:ss,fff stamps of any width). The same is proved for WebVTT (vtt_doc_cues with vtt_block_wf: header, identifier lines, any number of blocks). The DFXP offset metrics and MicroDVD lines are not proved at document level yet: those parts are model + correspondence + independent spec only. "
+   note=NOTE_COMMON + "SAMI end back-filling is proved for every sync list (sami_backfill: next later sync of the language, else the 4 s tail) and the SRT reader for whole documents of any number of well-formed blocks (srt_doc_cues: one caption per block, in order, with the denoted instants; the hypotheses are met by srt_block_wf for hh:mm:ss,fff stamps of any width). The same is proved for WebVTT (vtt_doc_cues with vtt_block_wf: header, identifier lines, any number of blocks). and for MicroDVD (microdvd_doc_cues, microdvd_doc_cues_rate: one caption per line at floor(frame*10^6/rate) us, exactly). The DFXP document level (XML tree, begin/end/dur with offset metrics) and the SAMI HTML parse are not proved: those parts are model + correspondence + independent spec only. "
         "XML/HTML tokenisation (bs4/lxml/html.parser) is library code tied by correspondence. SRT blocks without any text line and digits outside ASCII are outside the modelled domain."),
 
  "C13": dict(
